@@ -1791,10 +1791,10 @@ func main() {
 		name string
 		q, t time.Duration
 	}{
-		{"c09-collector-orders", 12 * time.Second, 4 * time.Minute},
+		{"c09-collector-orders", 11 * time.Second, 4 * time.Minute},
 		{"c09-collector-grid", 6 * time.Second, 90 * time.Second},
-		{"c09-collector-cap", 5 * time.Second, 30 * time.Second},
-		{"c09-e2e", 15 * time.Second, 3 * time.Minute},
+		{"c09-collector-cap", 4 * time.Second, 30 * time.Second},
+		{"c09-e2e", 14 * time.Second, 3 * time.Minute},
 		{"c09-multisearch", 6 * time.Second, 90 * time.Second},
 		{"c09-e2e-shared-sortorder", 2 * time.Second, 10 * time.Second},
 		{"c09-e2e-boundary-text", 2 * time.Second, 10 * time.Second},
@@ -1802,9 +1802,13 @@ func main() {
 		if only != "" && e.name != only && e.name != "c09-"+only {
 			continue
 		}
-		chunk := int64(4)
-		if e.name == "c09-collector-grid" {
-			chunk = 64
+		// small jobs: the budget is checked between jobs, so a loaded machine overshoots by one job at most
+		chunk := int64(2)
+		switch e.name {
+		case "c09-collector-grid":
+			chunk = 32
+		case "c09-e2e", "c09-multisearch":
+			chunk = 1
 		}
 		st := explore.Enumerate(explore.EnumConfig{Name: e.name, Param: c.Tier, Budget: c.PickD(e.q, e.t), Chunk: chunk, MaxViol: 1 << 20})
 		c.AddEnum(st)
